@@ -143,6 +143,28 @@ fn s_params(t: &mut Tape, ctx: &mut Ctx) -> Result<(), Failure> {
             }
         }
     }
+    {
+        let mut in_fn = false;
+        let mut in_main = false;
+        for it in &g.prog.items {
+            if let Item::Fn(f) = it {
+                let mut uses = false;
+                walk_expr(&f.body, &mut |e| uses |= matches!(e, Expr::Param(_)));
+                if f.name == "main" {
+                    in_main |= uses;
+                } else {
+                    in_fn |= uses;
+                }
+            }
+        }
+        if in_fn {
+            ctx.label("parameter-used-in-function");
+        }
+        if in_main {
+            ctx.label("parameter-used-in-main");
+        }
+        ctx.label(&format!("parameters:{}", g.params.len().min(4)));
+    }
     if g.params.iter().any(|(_, _, ty)| ty.size() >= 2) {
         ctx.label("composite-parameter");
         ctx.nontrivial(digest(&[text.as_bytes()]));
